@@ -1046,8 +1046,64 @@ fn equiv_case(idx: usize, spec: &[ModeSpec], cache: &TableCache, rcache: &RefCac
             }
         }
     }
+    // E8: the registry model. Leaves are sent with *keys* (positions in the sorted table of all leaf
+    // texts); the real registry is sent as the keys of its classes in id order; the model must
+    // reproduce it and hands the patterns with the ids it assigned to the compiler model
+    let mut registry_lines = String::new();
+    {
+        let mut texts = std::collections::BTreeSet::new();
+        let mut all = true;
+        for mode in spec.iter() {
+            for p in &mode.patterns {
+                all &= astser::collect_leaf_texts(&p.pattern, &mut texts).is_some();
+                if let Some((_, la)) = &p.lookahead {
+                    all &= astser::collect_leaf_texts(la, &mut texts).is_some();
+                }
+            }
+        }
+        // the registered classes as the crate prints them: `#<id> '<text>'`
+        let real_texts: Vec<Option<String>> = dump.classes.iter().enumerate().map(|(i, c)| {
+            c.strip_prefix(&format!("#{} '", i)).and_then(|r| r.strip_suffix('\'')).map(|r| r.to_string())
+        }).collect();
+        for t in real_texts.iter().flatten() {
+            texts.insert(t.clone());
+        }
+        let keys: Vec<String> = texts.into_iter().collect();
+        if all && real_texts.iter().all(|t| t.is_some()) {
+            let mut lines = String::new();
+            let mut good = true;
+            for (m, mode) in spec.iter().enumerate() {
+                for p in &mode.patterns {
+                    match astser::ser_kpattern(&p.pattern, &keys) {
+                        Some(a) => { let _ = writeln!(lines, "kpat {} {}{}", m, p.tid, a); }
+                        None => good = false,
+                    }
+                    if let Some((pos, la)) = &p.lookahead {
+                        match astser::ser_kpattern(la, &keys) {
+                            Some(a) => { let _ = writeln!(lines, "kla {} {}{}", m, *pos as u8, a); }
+                            None => good = false,
+                        }
+                    }
+                }
+            }
+            if good {
+                let _ = write!(lines, "regreal");
+                for t in real_texts.iter().flatten() {
+                    let _ = write!(lines, " {}", keys.binary_search(t).unwrap());
+                }
+                lines.push_str("\nregistry\nexpect registry ok\n");
+                registry_lines = lines;
+                st.count("class_registries_reproduced_by_the_model", 1);
+            }
+        }
+    }
     if ok && reg.keys.len() == dump.classes.len() {
         body.push_str(&clines);
+    }
+    // (when the model reproduces the real registry, the patterns with the ids it assigned replace
+    // the ones numbered by the harness)
+    body.push_str(&registry_lines);
+    if ok && reg.keys.len() == dump.classes.len() {
         for (m, mode) in spec.iter().enumerate() {
             for p in &mode.patterns {
                 if let Some((pos, _)) = &p.lookahead {
